@@ -50,10 +50,16 @@ pub struct LifeModel {
     pub name: &'static str,
     pub expire_now: bool,
     pub max_reqs: usize,
+    /// start from an exchange that is complete on the wire but not yet consumed: GET answered with head + 4 octets +
+    /// END_STREAM, response future resolved, RecvStream and SendStream still held, nothing read or released
+    pub mid: bool,
 }
 
 impl LifeModel {
     pub fn new(name: &'static str, quick: bool, expire_now: bool) -> LifeModel {
+        Self::new_variant(name, quick, expire_now, false)
+    }
+    pub fn new_variant(name: &'static str, quick: bool, expire_now: bool, mid: bool) -> LifeModel {
         let n = if quick { 2 } else { 3 };
         let mut ev = vec![Ev::Request(true), Ev::Request(false)];
         for k in 0..n {
@@ -63,9 +69,7 @@ impl LifeModel {
             ev.push(Ev::PeerDataEos(k));
             ev.push(Ev::PeerRst(k));
             ev.push(Ev::PollResponse(k));
-            if !quick {
-                ev.push(Ev::ReadAll(k));
-            }
+            ev.push(Ev::ReadAll(k));
             ev.push(Ev::ClientReset(k));
             ev.push(Ev::DropRf(k));
             ev.push(Ev::DropSs(k));
@@ -76,7 +80,7 @@ impl LifeModel {
         if expire_now {
             ev.push(Ev::TimePasses);
         }
-        LifeModel { events: ev, name, expire_now, max_reqs: n }
+        LifeModel { events: ev, name, expire_now, max_reqs: n, mid }
     }
 }
 
@@ -112,11 +116,26 @@ impl Model for LifeModel {
         let mut cb = client::Builder::new();
         cb.reset_stream_duration(if self.expire_now { std::time::Duration::from_secs(0) } else { std::time::Duration::from_secs(3600) });
         cb.max_concurrent_reset_streams(2);
+        // a stream window of 6: releasing the 4 octets of a response body crosses the WINDOW_UPDATE threshold, so that closed
+        // streams pass through the pending-window-update queue as well
+        cb.initial_window_size(6);
         T2Cfg { role: Side::Client, peer_settings: vec![], client: Some(cb), server: None, policy: IoPolicy::default() }
     }
     fn init(&self, t: &mut T2) -> World {
         let sr = t.send_request.take().unwrap();
-        World { clones: vec![sr.clone(), sr], reqs: vec![], resets: 0 }
+        let mut w = World { clones: vec![sr.clone(), sr], reqs: vec![], resets: 0 };
+        if self.mid {
+            let req = self.events.iter().position(|e| matches!(e, Ev::Request(false))).unwrap();
+            self.apply(t, &mut w, req);
+            t.drive(50);
+            let sid = w.reqs[0].sid;
+            t.peer_response(sid, "200", false);
+            t.peer_send(&wf::data(sid, b"resp", true));
+            t.drive(50);
+            let poll = self.events.iter().position(|e| matches!(e, Ev::PollResponse(0))).unwrap();
+            self.apply(t, &mut w, poll);
+        }
+        w
     }
     fn n_events(&self) -> usize {
         self.events.len()
@@ -384,16 +403,19 @@ pub fn run(ctx: &Ctx) -> Outcome {
     let m1 = LifeModel::new(if quick { "life-remember-q" } else { "life-remember-t" }, quick, false);
     let m2 = LifeModel::new(if quick { "life-expire-q" } else { "life-expire-t" }, quick, true);
     let maxd = if quick { 8 } else { 11 };
-    let r1 = search(ctx, &m1, "C19", maxd, budget * 0.5, true);
-    let r2 = search(ctx, &m2, "C19", maxd, budget * 0.97, true);
-    fill_outcome(&mut out, &[(m1.name, &r1), (m2.name, &r2)]);
+    let m3 = LifeModel::new_variant(if quick { "life-mid-q" } else { "life-mid-t" }, quick, false, true);
+    let r1 = search(ctx, &m1, "C19", maxd, budget * 0.36, true);
+    let r2 = search(ctx, &m2, "C19", maxd, budget * 0.7, true);
+    let r3 = search(ctx, &m3, "C19", maxd, budget * 0.97, true);
+    fill_outcome(&mut out, &[(m1.name, &r1), (m2.name, &r2), (m3.name, &r3)]);
     out.set("exhaustive", json!(false));
     out.set("alphabet", json!(m2.events.iter().map(|e| format!("{:?}", e)).collect::<Vec<_>>()));
-    out.set("rule", json!("X2 on T2 (real client, 2-3 streams, two SendRequest clones, reset memory 'never expires' / 'expires at once'): request (with / without body), END_STREAM, peer response (END_STREAM or not), peer DATA END_STREAM, peer RST_STREAM, poll the response, read, client reset, drop of ResponseFuture / SendStream / RecvStream / a SendRequest clone in every order relative to connection polls, time passing. Epilogue from every new state: every stream is finished by both sides, every stream handle dropped, quiescence - then the snapshot hook must show no stream record beyond <= 2 remembered local resets (none once expired), both stream counters 0, empty receive / send buffers, no in-flight octets, the whole connection send window unassigned; then the last SendRequest is dropped: the connection task must have been woken, GOAWAY(NO_ERROR) on the wire, transport shut down, future Ok(()). Any panic ('dangling store key', Store/Counts drop assertions) is a violation"));
+    out.set("rule", json!("X2 on T2 (real client, stream window 6, 2-3 streams, two SendRequest clones, reset memory 'never expires' / 'expires at once', and a third start state with an exchange complete on the wire but not yet read): request (with / without body), END_STREAM, peer response (END_STREAM or not), peer DATA END_STREAM, peer RST_STREAM, poll the response, read, client reset, drop of ResponseFuture / SendStream / RecvStream / a SendRequest clone in every order relative to connection polls, time passing. Epilogue from every new state: every stream is finished by both sides, every stream handle dropped, quiescence - then the snapshot hook must show no stream record beyond <= 2 remembered local resets (none once expired), both stream counters 0, empty receive / send buffers, no in-flight octets, the whole connection send window unassigned; then the last SendRequest is dropped: the connection task must have been woken, GOAWAY(NO_ERROR) on the wire, transport shut down, future Ok(()). Any panic ('dangling store key', Store/Counts drop assertions) is a violation"));
     out.add_sample(json!({"harness": format!("x2.{}", m1.name), "depth": 3, "choices": [1, 25, 4]}));
     let mut vs = VioSet::default();
     vs.merge(r1.agg.vios);
     vs.merge(r2.agg.vios);
+    vs.merge(r3.agg.vios);
     out.violations = vs.into_vec();
     out.guard_nonzero("client resets", out.coverage.get("mechanism_counters").and_then(|m| m.get("client_resets")).and_then(|v| v.as_u64()).unwrap_or(0));
     out
@@ -402,10 +424,10 @@ pub fn run(ctx: &Ctx) -> Outcome {
 pub fn replay(v: &serde_json::Value) -> Option<bool> {
     let h = v["harness"].as_str().unwrap_or("");
     for quick in [true, false] {
-        for (n, e) in [("life-remember", false), ("life-expire", true)] {
+        for (n, e, mid) in [("life-remember", false, false), ("life-expire", true, false), ("life-mid", false, true)] {
             let name: &'static str = Box::leak(format!("{}-{}", n, if quick { "q" } else { "t" }).into_boxed_str());
             if h == format!("x2.{}", name) {
-                return Some(replay_model(&LifeModel::new(name, quick, e), "C19", v));
+                return Some(replay_model(&LifeModel::new_variant(name, quick, e, mid), "C19", v));
             }
         }
     }
